@@ -38,8 +38,10 @@ EXHAUSTIVE = {'quick': 'all patterns with <=3 connectives over {phi0, phi1, bot}
 FLOORS = {'quick': {'input:tautology': 100, 'input:unsatisfiable': 100, 'input:contingent': 100, 'clause_orderings': 1000,
                     'resolution:expected_refutation': 300, 'resolution:expected_none': 300, 'resolution:expected_valid': 20,
                     'stage:to_conj_form': 200, 'stage:propag_neg': 200, 'stage:to_cnf': 200, 'stage:to_clauses': 200,
-                    'stage_proof_conclusions_checked': 1000, 'static_conclusions_checked': 200, 'replays_ok': 40, 'random_formulas': 100}}
-FLOORS['thorough'] = {k: v * 4 for k, v in FLOORS['quick'].items()}
+                    'stage_proof_conclusions_checked': 1000, 'static_conclusions_checked': 200, 'replays_ok': 40, 'random_formulas': 100,
+                    'exhaustive_formulas:3_connectives': 14074, 'clause_sets_all_orderings:3': 2600}}
+FLOORS['thorough'] = {k: v * 4 for k, v in FLOORS['quick'].items() if ':3' not in k}
+FLOORS['thorough'].update({'exhaustive_formulas:3_connectives': 41552, 'exhaustive_formulas:4_connectives': 274095, 'clause_sets_all_orderings:4': 14950})
 
 RESOLUTION_MECHS = ('resolution_incomplete_for_some_clause_order', 'resolution_incomplete_for_every_tried_clause_order')
 
@@ -609,9 +611,10 @@ def shard(ctx):
                 ctx.sample({'formula': d_str(d), 'truth_table_says': mon.case['truth_table_says']})
 
     # ---- (b) random larger formulas
-    nrand = ctx.scale(1600, 60000)
+    nrand = ctx.scale(960, 32000)
+    sizes = [n for n in range(4, 15) for _ in range(16 - n)]     # 4..14 connectives, smaller ones more often
     for k in range(nrand):
-        n = rng.randint(4, 14)
+        n = rng.choice(sizes)
         nv = rng.randint(1, 5)
         d = rand_formula(rng, n, nv)
         ctx.count('random_formulas')
@@ -634,7 +637,7 @@ def shard(ctx):
             ctx.count(f'clause_sets_all_orderings:{k}')
     if quick:
         # a seeded sample of 4-clause sets, all 24 orderings each
-        for _ in range(ctx.scale(1600, 0)):
+        for _ in range(ctx.scale(960, 0)):
             combo = rng.sample(clauses3, 4)
             for perm in itertools.permutations(combo):
                 check_clauses(mon, perm, build_secs)
